@@ -272,3 +272,30 @@ CONTRACTS += [
              ensures=_DUR_POST,
              note='amounts above 1000 combined with year/month/week units are deliberately not parsed by this function'),
 ]
+
+BMP = DT + 'base_merged.py::BaseMergedParser.'
+MERGED_PARSER = Rec(DT + 'base_merged.py::BaseMergedParser', init=dict(config=Opaque(), options=Const(0)))
+_VALUE = 'date_str(y, m, d) + ((" " + time_str(h, mi, s)) if with_time else "")'
+
+CONTRACTS += [
+    Contract('dp.merged.add_single_value', BMP + '__add_single_date_time_to_resolution', ['C11'],
+             params=dict(y=Int(1, 9999), m=MONTH, d=DAY, h=Int(0, 23), mi=Int(0, 59), s=Int(0, 59), with_time=Bool(),
+                         value=Expr(_VALUE), dtype=Expr('"dateTime" if with_time else "date"'),
+                         self=MERGED_PARSER, resolutions=Expr('{dtype: value}'), mod=Const(''), result=Expr('{}')),
+             ensures=[('min-value-marker-is-never-emitted',
+                       'iff(len(result) == 0, y == 1 and m == 1 and d == 1)'),
+                      ('otherwise-the-value-is-emitted-unchanged',
+                       'implies(not (y == 1 and m == 1 and d == 1), len(result) == 1 and result["value"] == value)')]),
+    Contract('dp.merged.add_single_value.empty', BMP + '__add_single_date_time_to_resolution', ['C11'],
+             params=dict(self=MERGED_PARSER, dtype=Const('date'), resolutions=Expr('{"date": ""}'), mod=Const(''), result=Expr('{}')),
+             ensures=[('nothing-emitted', 'len(result) == 0')]),
+    Contract('dp.merged.add_period', BMP + '__add_period_to_resolution', ['C11'],
+             params=dict(y=Int(1, 9999), m=MONTH, d=DAY, y2=Int(1, 9999), m2=MONTH, d2=DAY, has_start=Bool(), has_end=Bool(),
+                         self=MERGED_PARSER,
+                         resolutions=Expr('dict_of_present("startDate", date_str(y, m, d), has_start, "endDate", date_str(y2, m2, d2), has_end)'),
+                         start_type=Const('startDate'), end_type=Const('endDate'), mod=Const(''), result=Expr('{}')),
+             ensures=[('emitted-only-with-both-ends-and-neither-invalid',
+                       'iff(len(result) == 2, has_start and has_end and not (y == 1 and m == 1 and d == 1) and '
+                       'not (y2 == 1 and m2 == 1 and d2 == 1)) and (len(result) == 0 or len(result) == 2)'),
+                      ('ends-unchanged', 'implies(len(result) == 2, result["start"] == date_str(y, m, d) and result["end"] == date_str(y2, m2, d2))')]),
+]
